@@ -268,8 +268,8 @@ func checkOneImage(r *Runner, img []byte, allowed []crashState, spec simdisk.Cra
 // other page of the recovered state; then a clean reopen shows the same.
 func runSuffixOn(r *Runner, d *simdisk.Disk, f *txfile.File, m *MState, spec simdisk.CrashSpec) *Violation {
 	suffix := &Program{Cfg: r.P.Cfg, Items: []Item{
-		{Tx: &Tx{Ops: []Op{{K: OpAlloc, A: 3}, {K: OpWrite, A: 1 << 20, B: 0, C: 990001}, {K: OpWriteMany, A: spec.K, B: 2, C: 990002}, {K: OpFree, A: spec.K + 1}}, End: EndCommit}},
-		{Tx: &Tx{Ops: []Op{{K: OpWriteMany, A: spec.K + 2, B: 3, C: 990003}, {K: OpAlloc, A: 1}}, End: EndCommit}},
+		{Tx: &Tx{Overflow: true, Ops: []Op{{K: OpAlloc, A: 3}, {K: OpWrite, A: 1 << 20, B: 0, C: 990001}, {K: OpWriteMany, A: spec.K, B: 2, C: 990002}, {K: OpFree, A: spec.K + 1}}, End: EndCommit}},
+		{Tx: &Tx{Overflow: true, Ops: []Op{{K: OpWriteMany, A: spec.K + 2, B: 3, C: 990003}, {K: OpAlloc, A: 1}}, End: EndCommit}},
 		{Reopen: &Reopen{Mode: 0}},
 	}}
 	sr := NewRunnerOn(suffix, RunOpts{CheckContent: true, CheckOwnership: true, Drain: true}, d, f, m)
@@ -293,10 +293,10 @@ func recrash(r *Runner, img []byte, txid uint64, m *MState, spec simdisk.CrashSp
 	}
 	k := spec.K
 	suffix := &Program{Cfg: r.P.Cfg, Items: []Item{
-		{Tx: &Tx{Ops: []Op{{K: OpAlloc, A: 2}, {K: OpWrite, A: 1 << 20, B: 0, C: 990011}, {K: OpWriteMany, A: k, B: 2, C: 990012}, {K: OpFree, A: k + 1}}, End: EndCommit}},
-		{Tx: &Tx{WALLimit: uint(k % 3), Ops: []Op{{K: OpWriteMany, A: k + 2, B: 3, C: 990013}, {K: OpFlushTx}, {K: OpAlloc, A: 1}, {K: OpFree, A: k + 3}}, End: EndCommit}},
-		{Tx: &Tx{Ops: []Op{{K: OpAlloc, A: 1}, {K: OpWrite, A: 1 << 20, B: 0, C: 990014}}, End: EndRollback}},
-		{Tx: &Tx{Ops: []Op{{K: OpWriteMany, A: k + 5, B: 1, C: 990015}, {K: OpSetRoot, A: k}}, End: EndCommit}},
+		{Tx: &Tx{Overflow: true, Ops: []Op{{K: OpAlloc, A: 2}, {K: OpWrite, A: 1 << 20, B: 0, C: 990011}, {K: OpWriteMany, A: k, B: 2, C: 990012}, {K: OpFree, A: k + 1}}, End: EndCommit}},
+		{Tx: &Tx{Overflow: true, WALLimit: uint(k % 3), Ops: []Op{{K: OpWriteMany, A: k + 2, B: 3, C: 990013}, {K: OpFlushTx}, {K: OpAlloc, A: 1}, {K: OpFree, A: k + 3}}, End: EndCommit}},
+		{Tx: &Tx{Overflow: true, Ops: []Op{{K: OpAlloc, A: 1}, {K: OpWrite, A: 1 << 20, B: 0, C: 990014}}, End: EndRollback}},
+		{Tx: &Tx{Overflow: true, Ops: []Op{{K: OpWriteMany, A: k + 5, B: 1, C: 990015}, {K: OpSetRoot, A: k}}, End: EndCommit}},
 	}}
 	sr := NewRunnerOn(suffix, RunOpts{CheckContent: true, Drain: true, TrackCommits: true}, d, f, m)
 	sr.InitTxID = txid
